@@ -1152,3 +1152,30 @@ def rule_GS2(F, R):
             else:
                 R.ok("GS2", "%s: nothing reloads the key between sealing and writing" % name, where(b, si))
     R.floor("GS2", "seal sites directly in the git backend's Server methods", n, 1)
+
+
+def rule_GK1(F, R):
+    R.begin("GK1", "git cleanup removes a version file only if the version it *contains* (the child id, the key of the versions map) is covered by the snapshot; testing the parent id instead also removes the first version after the snapshot, and a replica based on the snapshot's version can no longer fetch its child")
+    target = None
+    for p, b in F.bodies.items():
+        if "gitsync" in p and b["kind"] == "AssocFn" and any("HashSet<uuid::Uuid>" in x for x in (b.get("sig_in") or [])) and any("HashMap<uuid::Uuid" in x for x in (b.get("sig_in") or [])):
+            target = b
+    if target is None:
+        R.missing("GK1", "the git function that removes the version files covered by a snapshot (takes the versions map and the covered set)")
+        return
+    c = cfg_of(target)
+    fl = flow_of(target)
+    n = 0
+    for (i, t) in c.calls():
+        if not any(re.search(r"HashSet::<T, S, A>::contains$", x) for x in call_names(t)):
+            continue
+        n += 1
+        sl = fl.slice_operand(t["args"][1])
+        nexts = [r for r in sl.roots if r[0] in ("call", "callnode") and r[2].endswith("Iterator::next")]
+        via_values = any(re.search(r"HashMap::<K, V, S, A>::(values|into_values|values_mut)$|::map$", x) for x in sl.call_names())
+        key_proj = bool(nexts) and all(len(r[3]) >= 2 and r[3][0] == ("dc", "Some") and r[3][1][0] == "f" and r[3][1][1] == 0 for r in nexts)
+        if via_values or not key_proj:
+            R.violation("GK1", target["path"], "covered-test-not-on-child-id", "the id tested against the covered set is not the key of the versions map (the child id): with the parent id, the version that follows the snapshot's version is removed as well", where(target, i))
+        else:
+            R.ok("GK1", "the covered test is on the child id (the map key)", where(target, i))
+    R.floor("GK1", "membership tests against the covered set", n, 1)
